@@ -463,6 +463,7 @@ func checkDecide(c *Check, p *Prog, name string, d *wfDesc, s, items int64, pref
 		}
 		var failLoops []*LoopS
 		normalOnly := true
+		passed := map[*LoopS]bool{} // loops certainly left through their head (all items examined)
 		for _, ex := range posExits(S, sum, r.Guard) {
 			l := loopOfExit(sum, ex)
 			if l == nil {
@@ -473,6 +474,23 @@ func checkDecide(c *Check, p *Prog, name string, d *wfDesc, s, items int64, pref
 				normalOnly = false
 			} else if ex != headExit(l) {
 				normalOnly = false
+			} else {
+				passed[l] = true
+			}
+		}
+		// the accepting return lies behind EVERY decision loop (a shortcut that accepts after the pass counts alone
+		// skips the uniformity criterion)
+		allPassed := true
+		for _, l := range countLoops {
+			if !passed[l] {
+				allPassed = false
+			}
+		}
+		if !d.CountOnly {
+			for _, l := range qLoops {
+				if !passed[l] {
+					allPassed = false
+				}
 			}
 		}
 		bv, isB := r.Rets[0].BoolVal()
@@ -502,7 +520,7 @@ func checkDecide(c *Check, p *Prog, name string, d *wfDesc, s, items int64, pref
 				fmt.Sprintf("failing return value %v does not name TestMethodArr[i].Name of the failing item", trunc(e.String(), 200)))
 			nFail++
 			okRet = append(okRet, r)
-		case normalOnly && isB && bv && r.Rets[1].IsNil():
+		case normalOnly && allPassed && isB && bv && r.Rets[1].IsNil():
 			// the true return: must be reached through the normal exit of every decision loop
 			okRet = append(okRet, r)
 		default:
